@@ -13,6 +13,8 @@ CONSTANTS
   FixNick = TRUE
   FixQC = TRUE
   FixConnect = TRUE
+  FixStale = TRUE
+  MaxReplug = 0
 INVARIANT NoRaise
 INVARIANT WriteOncePerRequest
 INVARIANT RetryBound
